@@ -33,6 +33,24 @@ static void *rc_xrealloc(void *q, size_t n) {
   return p;
 }
 
+/* Make room for element index n of an array currently holding n elements.
+ * The capacity is implicit: 0 for n == 0, else max(8, next power of two >= n),
+ * so growth is geometric without a stored capacity field. */
+static void *rc_grow(void *p, size_t n, size_t elem) {
+  size_t ncap;
+  if (n == 0)
+    ncap = 8;
+  else if (n >= 8 && (n & (n - 1)) == 0)
+    ncap = n * 2;
+  else
+    return p;
+  if (ncap > (size_t)-1 / elem) {
+    fprintf(stderr, "refcodec: array size overflow\n");
+    abort();
+  }
+  return rc_xrealloc(p, ncap * elem);
+}
+
 static uint8_t *rc_memdup(const uint8_t *p, size_t n) {
   uint8_t *r = (uint8_t *)rc_xmalloc(n);
   if (n > 0) memcpy(r, p, n);
@@ -289,8 +307,7 @@ typedef struct rc_logr_s {
 
 static void rc_log_report(rc_logr_t *r, uint64_t off, uint64_t bytes, int reason) {
   rc_logresult_t *res = r->res;
-  res->drops = (rc_logdrop_t *)rc_xrealloc(res->drops,
-                                           (res->ndrops + 1) * sizeof(rc_logdrop_t));
+  res->drops = (rc_logdrop_t *)rc_grow(res->drops, res->ndrops, sizeof(rc_logdrop_t));
   res->drops[res->ndrops].off = off;
   res->drops[res->ndrops].bytes = bytes;
   res->drops[res->ndrops].reason = reason;
@@ -367,8 +384,7 @@ static int rc_log_read_physical(rc_logr_t *r, int *type_out, size_t *frag_off,
 static void rc_log_push_record(rc_logresult_t *res, const uint8_t *data, size_t len,
                                uint64_t start, uint64_t end, int nfrag) {
   rc_logrec_t *rec;
-  res->recs = (rc_logrec_t *)rc_xrealloc(res->recs,
-                                         (res->nrecs + 1) * sizeof(rc_logrec_t));
+  res->recs = (rc_logrec_t *)rc_grow(res->recs, res->nrecs, sizeof(rc_logrec_t));
   rec = &res->recs[res->nrecs++];
   rec->data = rc_memdup(data, len);
   rec->len = len;
@@ -1066,8 +1082,7 @@ static int rc_tcb_index(void *arg, const uint8_t *key, size_t klen, const uint8_
     return -1;
   }
   if (rc_tctx_charge(c, klen + sizeof(rc_blockinfo_t)) != 0) return -1;
-  t->blocks = (rc_blockinfo_t *)rc_xrealloc(t->blocks,
-                                            (t->nblocks + 1) * sizeof(rc_blockinfo_t));
+  t->blocks = (rc_blockinfo_t *)rc_grow(t->blocks, t->nblocks, sizeof(rc_blockinfo_t));
   bi = &t->blocks[t->nblocks++];
   memset(bi, 0, sizeof(*bi));
   bi->offset = off;
@@ -1084,12 +1099,7 @@ static int rc_tcb_data(void *arg, const uint8_t *key, size_t klen, const uint8_t
   rc_entry_t *e;
   uint8_t *mem;
   if (rc_tctx_charge(c, klen + vlen + sizeof(rc_entry_t)) != 0) return -1;
-  if ((t->nentries & (t->nentries - 1)) == 0) {
-    /* grow at powers of two (0,1,2,4,...) */
-    size_t ncap = t->nentries ? t->nentries * 2 : 16;
-    if (t->nentries == 0 || t->nentries >= 16)
-      t->entries = (rc_entry_t *)rc_xrealloc(t->entries, ncap * sizeof(rc_entry_t));
-  }
+  t->entries = (rc_entry_t *)rc_grow(t->entries, t->nentries, sizeof(rc_entry_t));
   e = &t->entries[t->nentries++];
   /* key and value share one allocation; only e->key is freed. */
   mem = (uint8_t *)rc_xmalloc(klen + vlen);
@@ -1359,8 +1369,8 @@ int rc_edit_decode(const uint8_t *rec, size_t n, rc_edit_t *e) {
         size_t klen;
         if (rc_get_level(&p, limit, &level) != 0) goto fail;
         if (rc_get_ikey(&p, limit, &key, &klen) != 0) goto fail;
-        e->compact_pointers = rc_xrealloc(
-            e->compact_pointers, (e->ncompact + 1) * sizeof(*e->compact_pointers));
+        e->compact_pointers =
+            rc_grow(e->compact_pointers, e->ncompact, sizeof(*e->compact_pointers));
         e->compact_pointers[e->ncompact].level = level;
         e->compact_pointers[e->ncompact].key = rc_memdup(key, klen);
         e->compact_pointers[e->ncompact].klen = klen;
@@ -1374,7 +1384,7 @@ int rc_edit_decode(const uint8_t *rec, size_t n, rc_edit_t *e) {
         k = rc_get_varint64(p, limit, &number);
         if (k < 0) goto fail;
         p += k;
-        e->deleted = rc_xrealloc(e->deleted, (e->ndeleted + 1) * sizeof(*e->deleted));
+        e->deleted = rc_grow(e->deleted, e->ndeleted, sizeof(*e->deleted));
         e->deleted[e->ndeleted].level = level;
         e->deleted[e->ndeleted].number = number;
         e->ndeleted++;
@@ -1395,8 +1405,7 @@ int rc_edit_decode(const uint8_t *rec, size_t n, rc_edit_t *e) {
         p += k;
         if (rc_get_ikey(&p, limit, &sk, &sl) != 0) goto fail;
         if (rc_get_ikey(&p, limit, &lk, &ll) != 0) goto fail;
-        e->added = (rc_fileent_t *)rc_xrealloc(e->added,
-                                               (e->nadded + 1) * sizeof(rc_fileent_t));
+        e->added = (rc_fileent_t *)rc_grow(e->added, e->nadded, sizeof(rc_fileent_t));
         f = &e->added[e->nadded++];
         f->level = level;
         f->number = number;
